@@ -137,8 +137,18 @@ pub struct RunOut {
 static RUN_LOCK: Mutex<()> = Mutex::new(());
 
 fn classify<E: std::fmt::Debug>(e: &OpError<E>) -> String {
+    // the error's variant path, two levels deep: `Stack(Empty)` -> "Stack.Empty"; the payload of a
+    // state error is the view's own value, and is not part of the kind
     let s = format!("{:?}", e);
-    s.split(|c: char| !c.is_alphanumeric()).next().unwrap_or("").to_string()
+    let mut toks = s.split(|c: char| !c.is_alphanumeric()).filter(|t| !t.is_empty());
+    let first = toks.next().unwrap_or("").to_string();
+    if first == "StateRead" {
+        return first;
+    }
+    match toks.next() {
+        Some(t) if t.chars().next().map(|c| c.is_ascii_uppercase()).unwrap_or(false) => format!("{first}.{t}"),
+        _ => first,
+    }
 }
 
 /// Execute on the real VM with the observer recording every op of every VM.
@@ -511,10 +521,18 @@ pub fn emit_run(cfg: &RunCfg, out: &RunOut, label: &str) -> Emitted {
                         }
                     }
                 } else {
-                    // the join failed: show the failing child with the lowest index, if any
+                    // the join failed: show the failing child with the lowest index; if no child
+                    // failed, show them all (the specification then has to find the reason in
+                    // their memories or their gas)
                     if let Some(k) = mine.iter().find(|k| k.exit.is_none()) {
                         if !emit_child(cfg, k, events, steps, plen) {
                             return false;
+                        }
+                    } else {
+                        for k in &mine {
+                            if !emit_child(cfg, k, events, steps, plen) {
+                                return false;
+                            }
                         }
                     }
                 }
